@@ -196,4 +196,89 @@ Theorem outs_coherent_final (F : field_ok p) cs ins ig :
   scoped_cmds 0 0 cs = true ->
   Forall (out_ok_final (st (interp ins ig cs))) (outs (interp ins ig cs)).
 Proof. intros Sc. unfold Sym.interp. apply fold_outs_final; [exact F|exact Sc|constructor]. Qed.
+
+(* ------------------------------------------------------------------ completeness transfer (C01)
+   If, at the moment each constraint is emitted, the *values* of its three operands satisfy v * w = y (mod p)
+   -- the integer-level identity the Python code itself checks in add_constraint -- then, for a well-scoped
+   command list, the final recorded witness satisfies every emitted constraint *as a constraint on wires*. *)
+Definition holds (w : var -> Z) (c : lc * lc * lc) : Prop :=
+  feq p (eval w (fst (fst c)) * eval w (snd (fst c))) (eval w (snd c)).
+Definition con_ok (s : store) (c : lc * lc * lc) : Prop :=
+  lc_ok s (fst (fst c)) /\ lc_ok s (snd (fst c)) /\ lc_ok s (snd c) /\ holds (wval s) c.
+Definition emit_vals_ok ins ig (s : store) (c : cmd) : Prop :=
+  match c with
+  | CEmit a b y => feq p (veval p ins ig s (sval a) * veval p ins ig s (sval b)) (veval p ins ig s (sval y))
+  | _ => True
+  end.
+Fixpoint vjust ins ig (cs : list cmd) (t : trace) : Prop :=
+  match cs with
+  | [] => True
+  | c :: cs' => (raised t = None -> emit_vals_ok ins ig (st t) c) /\ vjust ins ig cs' (step ins ig t c)
+  end.
+
+Lemma con_ok_ext s s' c : ext s s' -> con_ok s c -> con_ok s' c.
+Proof.
+  intros E (A & B & C & H). repeat split; try (eapply lc_ok_ext; eauto).
+  unfold holds in *. rewrite !(eval_ext _ _ _ E) by assumption. exact H.
+Qed.
+
+Lemma fold_sat (F : field_ok p) ins ig cs : forall t,
+  scoped_cmds (Z.of_nat (length (pubs (st t)))) (Z.of_nat (length (privs (st t)))) cs = true ->
+  vjust ins ig cs t ->
+  Forall (con_ok (st t)) (cons t) ->
+  Forall (con_ok (st (fold_left (step ins ig) cs t))) (cons (fold_left (step ins ig) cs t)).
+Proof.
+  induction cs as [|c cs IH]; intros t Sc V H; [exact H|]. destruct V as [V1 V2]. simpl.
+  destruct (raised t) eqn:Er.
+  { rewrite (step_raised _ _ _ _ _ Er), (fold_raised _ _ _ _ _ Er). exact H. }
+  specialize (V1 eq_refl). simpl in Sc.
+  assert (H' : Forall (con_ok (st (step ins ig t c))) (cons t)).
+  { eapply Forall_impl; [|exact H]. intros o. apply con_ok_ext, step_ext. }
+  apply IH; [| exact V2 |].
+  - unfold Sym.step. rewrite Er.
+    destruct c as [[|] h|a b y|b e u|tag v l|tag x]; cbn [st pubs privs]; rewrite ?app_length; cbn [length];
+      rewrite ?Nat2Z.inj_add; try (change (Z.of_nat 1) with 1); try exact Sc.
+    + apply andb_prop in Sc. tauto.
+    + destruct (beval p ins ig (st t) b); exact Sc.
+    + apply andb_prop in Sc. tauto.
+  - unfold Sym.step in *. rewrite Er in *.
+    destruct c as [[|] h|a b y|b e u|tag v l|tag x]; cbn [st cons] in *; try exact H'.
+    + apply Forall_app. split; [exact H|]. constructor; [|constructor].
+      apply andb_prop in Sc. destruct Sc as [Sc _]. apply andb_prop in Sc. destruct Sc as [Sc Sy].
+      apply andb_prop in Sc. destruct Sc as [Sa Sb].
+      apply lc_okb_ok in Sa. apply lc_okb_ok in Sb. apply lc_okb_ok in Sy.
+      repeat split; try assumption. unfold holds. cbn [fst snd].
+      rewrite <- (proj2 (good a) F ins ig (st t)), <- (proj2 (good b) F ins ig (st t)), <- (proj2 (good y) F ins ig (st t)).
+      exact V1.
+    + destruct (beval p ins ig (st t) b); exact H.
+Qed.
+
+(* computable version of [vjust] (used in Examples and by the harness) *)
+Definition feqb (a b : Z) : bool := (a - b) mod p =? 0.
+Lemma feqb_feq a b : p <> 0 -> feqb a b = true -> feq p a b.
+Proof.
+  unfold feqb. intros Hp H. apply Z.eqb_eq in H. exists ((a - b) / p).
+  pose proof (Z.div_mod (a - b) p Hp). lia.
+Qed.
+Fixpoint vjustb ins ig (cs : list cmd) (t : trace) : bool :=
+  match cs with
+  | [] => true
+  | c :: cs' =>
+      (match raised t, c with
+       | None, CEmit a b y => feqb (veval p ins ig (st t) (sval a) * veval p ins ig (st t) (sval b)) (veval p ins ig (st t) (sval y))
+       | _, _ => true end) && vjustb ins ig cs' (step ins ig t c)
+  end.
+Lemma vjustb_vjust ins ig cs : p <> 0 -> forall t, vjustb ins ig cs t = true -> vjust ins ig cs t.
+Proof.
+  intros Hp. induction cs as [|c cs IH]; intros t H; [exact I|]. cbn [vjustb] in H. apply andb_prop in H. destruct H as [H1 H2].
+  split; [|apply IH; exact H2]. intros Er. rewrite Er in H1. destruct c; try exact I. cbn [emit_vals_ok]. apply feqb_feq; assumption.
+Qed.
+
+Theorem sat_final (F : field_ok p) cs ins ig :
+  scoped_cmds 0 0 cs = true -> vjust ins ig cs (Sym.init) ->
+  Forall (holds (wval (st (interp ins ig cs)))) (cons (interp ins ig cs)).
+Proof.
+  intros Sc V. pose proof (fold_sat F ins ig cs Sym.init Sc V (Forall_nil _)) as H.
+  eapply Forall_impl; [|exact H]. intros c (_ & _ & _ & Hh). exact Hh.
+Qed.
 End M.
